@@ -31,6 +31,7 @@ RULE = (
     "raise if it did not raise under defaults; names and all-zero terms may differ as the retain options prescribe. "
     "non-trivial = the setting differs from the defaults in a retain_* or sort_* flag and the result is non-constant."
 )
+LEVEL_TEXT += (" Construction without names (dict / attributes / from_attributes / clean_attributes with an unused leading or middle column) is in the fixed program set and the catalogue.")
 ASSUMPTIONS = [
     "polynomial division is exercised under default retain options only, as the property states",
     "ordering-based entries (comparisons, maximum/minimum, amax/amin/argmax/argmin, sortable_proxy, lead_*) are compared only across settings that agree on sort_graded/sort_reverse",
